@@ -4,6 +4,7 @@ mod c02;
 mod c04;
 mod c05;
 mod c06;
+mod c11;
 mod c15;
 mod conn;
 mod exchange;
@@ -61,6 +62,10 @@ fn main() {
                 "C04" => drive(&c04::C04, tier),
                 "C05" => drive(&c05::C05, tier),
                 "C06" => drive(&c06::C06, tier),
+                "C11" => {
+                    framework::silence_library_stdout();
+                    drive(&c11::C11, tier)
+                }
                 "C15" => drive(&c15::C15, tier),
                 _ => {
                     eprintln!("unknown or not-applicable property {id}");
@@ -84,6 +89,10 @@ fn main() {
                 "C04" => replay(&c04::C04, &doc),
                 "C05" => replay(&c05::C05, &doc),
                 "C06" => replay(&c06::C06, &doc),
+                "C11" => {
+                    framework::silence_library_stdout();
+                    replay(&c11::C11, &doc)
+                }
                 "C15" => replay(&c15::C15, &doc),
                 other => {
                     eprintln!("unknown property in replay file: {other}");
